@@ -72,6 +72,9 @@ def make_hierarchy():
         def __init__(self, v=None):
             self.v = v
 
+    class MetaBase(Base, metaclass=MetaX):
+        """satisfies a class criterion (Base) and a metaclass criterion (MetaX) at once"""
+
     class Marked(Other):
         __marker__ = True
 
@@ -89,7 +92,7 @@ def make_hierarchy():
     class Short(Base):
         """carries the registries' shortcut attributes"""
     return {"Tagged": Tagged, "Base": Base, "Mid": Mid, "Low": Low, "Other": Other, "MetaX": MetaX, "WithMeta": WithMeta,
-            "Marked": Marked, "MarkedF": MarkedF, "AbcB": AbcB, "Virt": Virt, "Short": Short}
+            "Marked": Marked, "MarkedF": MarkedF, "AbcB": AbcB, "Virt": Virt, "Short": Short, "MetaBase": MetaBase}
 
 
 # ----------------------------------------------------------------------------- reference model
@@ -151,6 +154,8 @@ def gen_spec(rng):
         spec["sub"] = rng.random() < 0.7
         if rng.random() < 0.12:
             spec["attr"] = "__marker__"
+        if rng.random() < 0.12:
+            spec["meta"] = "MetaX"      # class criterion AND metaclass criterion
     elif r < 0.72:
         spec["meta"] = "MetaX"
     elif r < 0.82:
@@ -168,7 +173,7 @@ def generate(rng, tier):
     declared = 0
     for _ in range(n):
         r = rng.random()
-        t = rng.choice(["Base", "Mid", "Low", "Other", "Marked", "MarkedF", "Virt", "WithMeta", "Short"])
+        t = rng.choice(["Base", "Mid", "Low", "Other", "Marked", "MarkedF", "Virt", "WithMeta", "Short", "MetaBase"])
         if r < 0.38:
             tagn += 1
             op = {"op": "register", "spec": gen_spec(rng), "tag": "c%d" % tagn}
@@ -186,7 +191,7 @@ def generate(rng, tier):
                 ops.append({"op": "convert_field", "t": t})
             elif r < 0.92:
                 declared += 1
-                ops.append({"op": "declare", "t": t, "how": rng.choice(["list", "dictkey", "dictval", "opt", "dc"]) if t == "WithMeta" else rng.choice(["list", "rule", "dictkey", "dictval", "opt", "dc"]), "name": "D%d" % declared})
+                ops.append({"op": "declare", "t": t, "how": rng.choice(["list", "dictkey", "dictval", "opt", "dc"]) if t in ("WithMeta", "MetaBase") else rng.choice(["list", "rule", "dictkey", "dictval", "opt", "dc"]), "name": "D%d" % declared})
             elif declared:
                 ops.append({"op": "convert_declared", "name": "D%d" % rng.randint(1, declared)})
             else:
